@@ -5,7 +5,7 @@ import FxVerif.Model.Util
 governance-check program, closures and `decrementAllowance`):
 
 * `disp <kind> <method> <methodIdHex> <writer> <addr> <entries|->` → ran | blocked:readonly | blocked:disabled   (stateless)
-* `set shares <a> <n>` | `set allow <a> <b> <n>` | `set bal <a> <n>` | `set pool <id> <sender> <amount>` → ok
+* `set shares <a> <n>` | `set dust <a> <n>` | `set val <tokens> <shares·10^18>` | `set allow <a> <b> <n>` | `set bal <a> <n>` | `set pool <id> <sender> <amount>` → ok
 * `h <kind> <caller> <origin> <addr> <methodIdHex> <entries|-> <method> <args…>` → `<status> <observed values>`   (stateful history)
 * `hu …` (same arguments): the call is made in a frame that reverts afterwards and is caught → `undone <observed values>`, state unchanged
 * `tkset <token> <acct> <token balance> <ERC-20 allowance to the precompile> <coins>` → ok;  `tk <token> <fx|erc20|coin> <caller> <amount>` →
@@ -26,8 +26,8 @@ def callOf (m : String) : Call :=
   | "cancelSendToExternal" => .cancelSend 1 | "increaseBridgeFee" => .increaseFee 1 0
   | "bridgeCall" => .bridgeCall 2 3 0 | "executeClaim" => .executeClaim 0 | n => .view n
 
-def w0 : World := ⟨fun _ => 10, fun _ => 10, fun _ => 0, fun _ => 0, fun _ _ => 10, [⟨1, 1, 5⟩], 2⟩
-def wInit : World := ⟨fun _ => 0, fun _ => 0, fun _ => 0, fun _ => 0, fun _ _ => 0, [], 1000000⟩
+def w0 : World := ⟨fun _ => 10, fun _ => 10, fun _ => 0, fun _ => 0, fun _ _ => 10, [⟨1, 1, 5⟩], 2, fun _ => 0, 100, 100 * shareScale⟩
+def wInit : World := ⟨fun _ => 0, fun _ => 0, fun _ => 0, fun _ => 0, fun _ _ => 0, [], 1000000, fun _ => 0, 0, 0⟩
 
 def nats (ws : List String) : Option (List Nat) := ws.mapM String.toNat?
 
@@ -36,6 +36,7 @@ def hcallOf (m : String) (args : List String) : Option Call :=
   match m, nats args with
   | "delegateV2", some [a] => some (.delegate a)
   | "undelegateV2", some [a] => some (.undelegate a)
+  | "redelegateV2", some [a] => some (.redelegate a)
   | "withdraw", some [] => some .withdraw
   | "approveShares", some [sp, s] => some (.approve sp s)
   | "transferShares", some [t, s] => some (.transferShares t s)
@@ -85,7 +86,8 @@ def observe (c self : Addr) (call : Call) (w : World) : String :=
   | .approve sp _ => s!"al={w.allow c sp} sa={w.shares c} sb={w.shares sp}"
   | .transferShares t _ => s!"al={w.allow c t} sa={w.shares c} sb={w.shares t}"
   | .transferFromShares f t _ => s!"al={w.allow f c} sa={w.shares f} sb={w.shares t}"
-  | .delegate _ | .undelegate _ | .withdraw => s!"sa={w.shares c}"
+  | .delegate _ | .undelegate _ | .redelegate _ => s!"sa={w.shares c} du={w.dust c} vt={w.vTok}"
+  | .withdraw => s!"sa={w.shares c}"
   | .cancelSend _ | .increaseFee _ _ | .crossChain _ _ _ => s!"pool={showPool w.pool} pb={w.bal self}"
   | _ => "-"
 
@@ -156,6 +158,15 @@ def step (st : World) (line : String) : World × String :=
   | ["set", "allow", a, b, n] =>
     match nats [a, b, n] with
     | some [a, b, n] => ({ st with allow := upd2 st.allow a b n }, "ok")
+    | _ => (st, "bad-op")
+  | ["set", "dust", a, n] =>
+    match nats [a, n] with
+    | some [a, n] => ({ st with dust := upd st.dust a n }, "ok")
+    | _ => (st, "bad-op")
+  | ["set", "val", t, r] =>
+    -- the validator's bonded tokens and its delegator shares (10^-18 units): the exchange rate of delegate / undelegate / redelegate
+    match nats [t, r] with
+    | some [t, r] => ({ st with vTok := t, vShr := r }, "ok")
     | _ => (st, "bad-op")
   | ["set", "nextid", n] =>
     match nats [n] with
